@@ -682,6 +682,10 @@ class Progress(JupyterMixin, RenderHook):
                 try:
                     if self.auto_refresh and self._refresh_thread is not None:
                         self._refresh_thread.stop()
+                    # a partial line still pending in the redirected streams is printed above the last frame
+                    for stream in (sys.stdout, sys.stderr):
+                        if isinstance(stream, FileProxy):
+                            stream.flush()
                     self.refresh()
                     if self.console.is_terminal:
                         self.console.line()
